@@ -46,3 +46,55 @@ impl Jt {
         }
     }
 }
+
+#[derive(Clone, Copy, PartialEq, Eq, Debug, Hash)]
+pub enum JoinType { Inner, Left, Right, Full, LeftSemi, RightSemi, LeftAnti, RightAnti, LeftMark, RightMark }
+
+/// seeded: a Left join becomes Inner when only the LEFT side is null-rejected (wrong side)
+pub fn bad_eliminate_outer(join_type: JoinType, left_non_nullable: bool, right_non_nullable: bool) -> JoinType {
+    let mut new_join_type = join_type;
+    match join_type {
+        JoinType::Left => {
+            if left_non_nullable {
+                new_join_type = JoinType::Inner;
+            }
+        }
+        JoinType::Right => {
+            if left_non_nullable {
+                new_join_type = JoinType::Inner;
+            }
+        }
+        JoinType::Full => {
+            if left_non_nullable && right_non_nullable {
+                new_join_type = JoinType::Inner;
+            } else if left_non_nullable {
+                new_join_type = JoinType::Left;
+            } else if right_non_nullable {
+                new_join_type = JoinType::Right;
+            }
+        }
+        _ => {}
+    }
+    new_join_type
+}
+
+/// seeded: claims the build side never needs a final pass for LeftAnti
+pub fn bad_need_produce_result_in_final(join_type: JoinType) -> bool {
+    matches!(join_type, JoinType::Left | JoinType::Full | JoinType::LeftSemi | JoinType::LeftMark)
+}
+
+/// seeded: right side of a Left join not forced nullable
+pub fn bad_force_nullable(join_type: &JoinType, is_left: bool) -> bool {
+    match join_type {
+        JoinType::Inner => false,
+        JoinType::Left => false,
+        JoinType::Right => is_left,
+        JoinType::Full => true,
+        _ => false,
+    }
+}
+
+/// seeded: declares the build (left) side order-preserving for Inner, and the probe side for Left (which appends rows at the end)
+pub fn bad_maintains_input_order(join_type: JoinType) -> Vec<bool> {
+    vec![matches!(join_type, JoinType::Inner), matches!(join_type, JoinType::Left | JoinType::Right)]
+}
